@@ -17,6 +17,8 @@ from cexpr import parse_expr, strip_comments, match_braces, TranslateError
 REGIONS = [
     ('residual_give', 'src/Residual/ResidualGive/residualGive.cpp', r'void\s+ResidualGive::computeResidual\s*\(', 'resgive'),
     ('residual_take', 'src/Residual/ResidualTake/residualTake.cpp', r'void\s+ResidualTake::computeResidual\s*\(', 'restake'),
+    ('direct_give_assembly', 'src/DirectSolver/DirectSolverGiveCustomLU/buildSolverMatrix.cpp', r'SparseMatrixCSR<double>\s+DirectSolverGiveCustomLU::buildSolverMatrix\s*\(', 'asmgive'),
+    ('direct_take_assembly', 'src/DirectSolver/DirectSolverTakeCustomLU/buildSolverMatrix.cpp', r'SparseMatrixCSR<double>\s+DirectSolverTakeCustomLU::buildSolverMatrix\s*\(', 'asmtake'),
     ('smoother_give', 'src/Smoother/SmootherGive/smootherSolver.cpp', r'void\s+SmootherGive::smoothingForLoop\s*\(', 'give'),
     ('smoother_take', 'src/Smoother/SmootherTake/smootherSolver.cpp', r'void\s+SmootherTake::smoothing\s*\(', 'take'),
     ('ext_smoother_give', 'src/ExtrapolatedSmoother/ExtrapolatedSmootherGive/smootherSolver.cpp',
@@ -118,6 +120,11 @@ class Body:
         col = None
         if len(args) > 1 and args[1].startswith('SmootherColor::'):
             col = {'SmootherColor::Black': 'false', 'SmootherColor::White': 'true'}[args[1]]
+        if self.kind in ('asmgive', 'asmtake'):
+            c = {'buildSolverMatrixCircleSection': 'Circle', 'buildSolverMatrixRadialSection': 'Radial'}.get(fn)
+            if c is None:
+                raise TranslateError('unknown task function %s' % fn)
+            return '(%s%s %s)' % ('AsmGive' if self.kind == 'asmgive' else 'AsmTake', c, idx)
         if self.kind in ('resgive', 'restake'):
             c = {'applyCircleSection': 'Circle', 'applyRadialSection': 'Radial'}.get(fn)
             if c is None:
